@@ -296,23 +296,31 @@ def state(T0, usages, j):
     return prefix_fold(step, T0, usages, j)
 
 
+def accepted(T0, usages, T):
+    """every usage is ok in the table at its position; T is the table after all of them"""
+    return forall_range(0, len(usages), lambda j: usage_ok(usages[j], state(T0, usages, j))) \
+        and T == state(T0, usages, len(usages))
+
+
+def rejected(T0, usages, T):
+    """some usage is not ok in the table at its position; all before it are; T is the table reached there
+    (nothing after the first failure has been examined)"""
+    return exists_range(0, len(usages), lambda j:
+    (not usage_ok(usages[j], state(T0, usages, j)))
+    and forall_range(0, j, lambda m: usage_ok(usages[m], state(T0, usages, m)))
+    and T == state(T0, usages, j))
+
+
 M.contract(P_SV + ':validate_symbol_usages', params=dict(symbol_usages=ListOf(USAGE), symbols=TABLE),
            returns=RESULT, modifies=('symbols',), old=lambda symbols: dict(view(symbols)),
            ensures={
                'accepted: every usage is ok in the table at its position; the table is the fold':
                    lambda symbol_usages, symbols, result, old:
-                   implies(result is None,
-                           forall_range(0, len(symbol_usages),
-                                        lambda j: usage_ok(symbol_usages[j], state(old, symbol_usages, j)))
-                           and view(symbols) == state(old, symbol_usages, len(symbol_usages))),
+                   implies(result is None, accepted(old, symbol_usages, view(symbols))),
                'rejected: VALIDATION_ERROR at the first usage that is not ok; nothing after it is examined':
                    lambda symbol_usages, symbols, result, old:
-                   result is None or (
-                           result.status is VALIDATION_ERROR and
-                           exists_range(0, len(symbol_usages), lambda j:
-                           (not usage_ok(symbol_usages[j], state(old, symbol_usages, j)))
-                           and forall_range(0, j, lambda m: usage_ok(symbol_usages[m], state(old, symbol_usages, m)))
-                           and view(symbols) == state(old, symbol_usages, j))),
+                   result is None or (result.status is VALIDATION_ERROR
+                                      and rejected(old, symbol_usages, view(symbols))),
            }, raises_only=())
 
 M.loop(P_SV + ':validate_symbol_usages', 0,
@@ -320,3 +328,142 @@ M.loop(P_SV + ':validate_symbol_usages', 0,
        view(symbols) == state(old, symbol_usages, _i)
        and forall_range(0, _i, lambda j: usage_ok(symbol_usages[j], state(old, symbol_usages, j))),
        modifies=dict(symbol_usage='local', result='local', symbols='in-place'))
+
+# ------------------------------------------------------------------------------ the whole test case
+# partial_execution/impl/symbol_validation.py: ONE table (a copy of the predefined symbols) is handed to one
+# executor, which validates the phases in execution order -- setup, act, before-assert, assert, cleanup.
+# The per-phase loop (run_instructions_phase_step: every instruction in order, stop at the first failure,
+# failure raised as PhaseStepFailureException) is the subject of C01; here it is an assumed contract that
+# records which executor was applied to which phase.
+
+from exactly_lib.execution import phase_step
+from exactly_lib.execution.impl.phase_step_execution import PhaseStepFailureResultConstructor
+from exactly_lib.execution.partial_execution.configuration import TestCase
+from exactly_lib.execution.partial_execution.impl import symbol_validation as psv
+from exactly_lib.execution.result import PhaseStepFailureException, ExecutionFailureStatus
+from exactly_lib.test_case.phases.common import SymbolUser
+
+P_PSV = 'exactly_lib.execution.partial_execution.impl.symbol_validation'
+
+
+class SymbolUserI(Interface):
+    """An instruction / the action to check: reports a constant sequence of usages (doc of SymbolUser)."""
+    target_class = SymbolUser
+    methods = {'symbol_usages': Method(returns=ListOf(USAGE), pure=True)}
+
+
+SYMBOL_USER = Iface(SymbolUserI)
+EXECUTOR = Inst(psv.ValidateSymbolsExecutor, _ValidateSymbolsExecutor__symbols=TABLE)
+
+
+def table_of(executor):
+    return executor._ValidateSymbolsExecutor__symbols
+
+
+M.contract(P_PSV + ':ValidateSymbolsExecutor.apply', params=dict(self=EXECUTOR, symbol_user=SYMBOL_USER),
+           returns=RESULT, modifies=('self',), old=lambda self: dict(view(table_of(self))),
+           ensures={
+               'accepted: every usage of the instruction is ok in the shared table at its position':
+                   lambda self, symbol_user, result, old:
+                   implies(result is None, accepted(old, symbol_user.symbol_usages(), view(table_of(self)))),
+               'rejected: VALIDATION_ERROR at the first usage that is not ok': lambda self, symbol_user, result, old:
+               result is None or (result.status is VALIDATION_ERROR
+                                  and rejected(old, symbol_user.symbol_usages(), view(table_of(self)))),
+           }, raises_only=())
+
+
+class SectionContentsI(Interface):
+    pass
+
+
+class FailureConstructorFactoryI(Interface):
+    """act_helper.failure_constructor: PhaseStep -> PhaseStepFailureResultConstructor (a real one)."""
+    methods = {'__call__': Method(returns=Inst(PhaseStepFailureResultConstructor, _step=Any_, _actor_name=Str,
+                                               _phase_source=Str))}
+
+
+PHASES = Inst(TestCase, _tuple=[Iface(SectionContentsI)] * 5)
+
+M.contract(P_PSV + ':SymbolsValidator.__init__',
+           params=dict(self=Inst(psv.SymbolsValidator), initial_symbols=TABLE, test_case=PHASES,
+                       action_to_check=SYMBOL_USER, mk_atc_failure_con=Iface(FailureConstructorFactoryI)),
+           inline=True,
+           ensures={
+               'starts as a copy of the predefined symbols': lambda self, initial_symbols:
+               view(self._symbols) == view(initial_symbols) and self._symbols is not initial_symbols
+               and view(self._symbols) is not view(initial_symbols),
+               'one shared table': lambda self:
+               table_of(self._validation_executor) is self._symbols and self.output is self._symbols,
+           }, raises_only=())
+
+# assumed here, proved in C01: applies the executor to every instruction of the phase in order, raises at the
+# first failure.  The event records (step, executor, phase).
+M.contract('exactly_lib.execution.impl.phase_step_execution:run_instructions_phase_step', trusted=True,
+           params=dict(step=Any_, instruction_executor=EXECUTOR, phase_contents=Iface(SectionContentsI)),
+           modifies=('instruction_executor',), may_raise=(PhaseStepFailureException,), event='phase')
+M.trust('execution.impl.phase_step_execution.run_instructions_phase_step applies the given executor to each '
+        'instruction of the given phase in order and raises PhaseStepFailureException at the first failure (C01)')
+
+
+def _mk_validator(interp, name):
+    v = object.__new__(psv.SymbolsValidator)
+    v._symbols = TABLE.make(interp, name + '._symbols')
+    v._test_case = PHASES.make(interp, name + '._test_case')
+    v._action_to_check = SYMBOL_USER.make(interp, name + '._action_to_check')
+    v._mk_atc_failure_con = Iface(FailureConstructorFactoryI).make(interp, name + '._mk_atc_failure_con')
+    e = object.__new__(psv.ValidateSymbolsExecutor)
+    e._ValidateSymbolsExecutor__symbols = v._symbols
+    v._validation_executor = e
+    return v
+
+
+VALIDATOR = Custom(_mk_validator)
+
+M.contract(P_PSV + ':SymbolsValidator._validate',
+           params=dict(self=VALIDATOR, step=Any_, phase_contents=Iface(SectionContentsI)), inline=True,
+           modifies=('self',), may_raise=(PhaseStepFailureException,),
+           ensures={'the shared executor on this phase': lambda self, step, phase_contents, trace:
+           len(trace) == 1 and trace[0][0] == 'phase' and trace[0][1]['instruction_executor'] is self._validation_executor
+           and trace[0][1]['phase_contents'] is phase_contents and trace[0][1]['step'] is step},
+           raises_only=())
+
+M.contract(P_PSV + ':SymbolsValidator._validate_atc', params=dict(self=VALIDATOR), modifies=('self',), event='atc',
+           old=lambda self: dict(view(self._symbols)),
+           raises={PhaseStepFailureException: {
+               'ensures': lambda self, exc, old:
+               exc.failure.status is ExecutionFailureStatus.VALIDATION_ERROR
+               and rejected(old, self._action_to_check.symbol_usages(), view(self._symbols))}},
+           ensures={'accepted: the usages of the action to check are ok in the shared table': lambda self, old:
+           accepted(old, self._action_to_check.symbol_usages(), view(self._symbols))},
+           raises_only=())
+
+_ORDER = (phase_step.SETUP__VALIDATE_SYMBOLS, 'act', phase_step.BEFORE_ASSERT__VALIDATE_SYMBOLS,
+          phase_step.ASSERT__VALIDATE_SYMBOLS, phase_step.CLEANUP__VALIDATE_SYMBOLS)
+
+
+def _phase_of(test_case, k):
+    return (test_case.setup_phase, None, test_case.before_assert_phase, test_case.assert_phase,
+            test_case.cleanup_phase)[k]
+
+
+def _is_prefix_of_execution_order(self, trace):
+    """the ghost trace is the first len(trace) steps of: setup, act, before-assert, assert, cleanup --
+    each with the one shared executor / table"""
+    ok = len(trace) <= 5
+    for k in range(min(len(trace), 5)):
+        e = trace[k]
+        if k == 1:
+            ok = ok and e[0] == 'atc' and e[1]['self'] is self
+        else:
+            ok = ok and e[0] == 'phase' and e[1]['step'] is _ORDER[k] \
+                 and e[1]['instruction_executor'] is self._validation_executor \
+                 and e[1]['phase_contents'] is _phase_of(self._test_case, k)
+    return ok
+
+
+M.contract(P_PSV + ':SymbolsValidator.validate', params=dict(self=VALIDATOR), modifies=('self',),
+           raises={PhaseStepFailureException: {
+               'ensures': lambda self, trace: _is_prefix_of_execution_order(self, trace)}},
+           ensures={'all five phases, in execution order, with the one shared table': lambda self, trace:
+           len(trace) == 5 and _is_prefix_of_execution_order(self, trace)},
+           raises_only=())
